@@ -1,3 +1,4 @@
+import Mrpro.Lemmas.SrcL
 import Mrpro.Model.OpsND
 import Mrpro.Lemmas.Basic
 import Mrpro.Lemmas.Action
@@ -102,5 +103,40 @@ theorem unravel_length (shape : List Nat) (f : Nat) : (unravel shape f).length =
 `⌊(n + L − 1)/2⌋` of PyWavelets for every even filter length `L` -/
 theorem wavelet_coeff_len (n L : Nat) (hL : L % 2 = 0) (hL0 : 0 < L) :
     (n + 1) / 2 + L / 2 - 1 = (n + L - 1) / 2 := by omega
+
+/-! ### Tie to the source: integer code translated from `/repo` on this run (`M.Src.*`) -/
+
+/-- the padding amounts computed by the current source of `zero_pad_or_crop` are the model's
+`padShift` (left) and the remainder (right), for all sizes -/
+theorem src_pad_rule (old new : Nat) :
+    M.Src.pad_rule old new = (M.padShift old new, (new : Int) - old - M.padShift old new) :=
+  M.SrcL.pad_rule_eq old new
+
+/-- `filter_separable` centres a kernel of length `n` at `(n-1)/2`, paddings add up to `n-1` -/
+theorem src_filter_pad (n : Nat) (h : 0 < n) :
+    (M.Src.filter_pad n).1 = ((n - 1) / 2 : Nat) ∧ (M.Src.filter_pad n).1 + (M.Src.filter_pad n).2 = n - 1 :=
+  M.SrcL.filter_pad_spec n h
+
+/-- the three-tap stencils of `FiniteDifferenceOp` get one sample on each side (as `M.corr3` assumes) -/
+theorem src_filter_pad_three : M.Src.filter_pad 3 = (1, 1) := M.SrcL.filter_pad_three
+
+/-- `CartesianSamplingOp`: the grid index computed by the source for each axis is `axisIdx` -/
+theorem src_sampling_axis (k : Int) (n : Nat) :
+    M.axisIdx n k = (if 0 ≤ M.Src.sampling_kx k n ∧ M.Src.sampling_kx k n < n
+      then some (M.Src.sampling_kx k n).toNat else none)
+    ∧ M.Src.sampling_ky k n = M.Src.sampling_kx k n ∧ M.Src.sampling_kz k n = M.Src.sampling_kx k n :=
+  M.SrcL.sampling_axis_eq k n
+
+/-- `CartesianSamplingOp`: the flat index computed by the source is `ravel3` -/
+theorem src_sampling_flat (nz ny nx : Nat) (kz ky kx : Int) (z y x : Nat)
+    (hz : M.axisIdx nz kz = some z) (hy : M.axisIdx ny ky = some y) (hx : M.axisIdx nx kx = some x) :
+    M.ravel3 nz ny nx kz ky kx = some (M.Src.sampling_flat z ny nx y x).toNat :=
+  M.SrcL.sampling_flat_eq nz ny nx kz ky kx z y x hz hy hx
+
+/-- `WaveletOp`: the coefficient length per level computed by the source is the PyWavelets length
+`⌊(n + L - 1)/2⌋` for every signal length and every even filter length -/
+theorem src_wavelet_level_shape (n L : Nat) (hL : L % 2 = 0) (hL0 : 0 < L) :
+    M.Src.wavelet_level_shape n L = (((n + L - 1) / 2 : Nat) : Int) :=
+  M.SrcL.wavelet_level_shape_eq n L hL hL0
 
 end C09
